@@ -436,6 +436,12 @@ func runC19(st *ev.Stats, h History) string {
 		st.Class("no-bonded-validator-left")
 		return ""
 	}
+	if os.Getenv("VERIF_DEBUG") != "" {
+		fmt.Printf("DEBUG C19 exporting at height %d: ok txs %v\n", n.Header.Height, r.st.OK)
+		for _, u := range r.users {
+			fmt.Printf("DEBUG C19 dao balance of %s: %s\n", u.Label, n.App.DaoKeeper.GetAccountBalances(n.CheckCtx(), u.Addr))
+		}
+	}
 	// a fresh chain initialised from the export
 	m, perr := chain.NewNodeFromExport(exp, n)
 	if perr != "" {
@@ -476,6 +482,9 @@ func runC19(st *ev.Stats, h History) string {
 	sa, sb := n.DumpStores(), m.DumpStores()
 	seenStoreKeys := map[string]bool{}
 	for _, d := range chain.DiffStores(sa, sb) {
+		if os.Getenv("VERIF_DEBUG") != "" && c19Stores[d.Store] {
+			fmt.Printf("DEBUG C19 store diff %s\n", trunc(d.String()))
+		}
 		prefix := "empty"
 		if len(d.Key) > 0 {
 			prefix = fmt.Sprintf("%02x", d.Key[0])
